@@ -153,23 +153,27 @@ func c47RunOne(t *testing.T, v c47Vec, failStep int) (run c47Run) {
 		if client != nil && !reflect.ValueOf(client).IsNil() {
 			run.HasCli = true
 			ctx := context.Background()
-			mk := func(name string) rueidis.Arbitrary {
-				return client.B().Arbitrary("VREPLY").Args("u-"+name, string(resp.AppendV2(nil, c47Reply(name))))
+			mk := func(name string, block bool) rueidis.Completed {
+				a := client.B().Arbitrary("VREPLY").Args("u-"+name, string(resp.AppendV2(nil, c47Reply(name))))
+				if block {
+					return a.Blocking()
+				}
+				return a.Build()
 			}
 			record := func(name string, r rueidis.RedisResult) {
 				call := c47Call{Name: name, Err: r.Error()}
 				call.OK = sim.MatchResult(r, c47Reply(name)) == nil
 				run.Calls = append(run.Calls, call)
 			}
-			record("pipe", client.Do(ctx, mk("pipe").Build()))
-			record("block", client.Do(ctx, mk("block").Blocking()))
+			record("pipe", client.Do(ctx, mk("pipe", false)))
+			record("block", client.Do(ctx, mk("block", true)))
 			var dr rueidis.RedisResult
 			_ = client.Dedicated(func(dc rueidis.DedicatedClient) error {
 				dr = dc.Do(ctx, dc.B().Arbitrary("VREPLY").Args("u-dedicated", string(resp.AppendV2(nil, c47Reply("dedicated")))).Build())
 				return nil
 			})
 			record("dedicated", dr)
-			s := client.DoStream(ctx, mk("stream").Build())
+			s := client.DoStream(ctx, mk("stream", false))
 			var buf bytes.Buffer
 			var serr error
 			for s.HasNext() {
@@ -215,16 +219,12 @@ func genC47Vec(rt *rapid.T) c47Vec {
 	v := c47Vec{
 		Server:     rapid.SampledFrom([]string{"resp3", "resp3", "resp3", "nohello", "proto2"}).Draw(rt, "server"),
 		Auth:       rapid.SampledFrom([]string{"", "", "userpass", "passonly", "credfn", "credfn-passonly"}).Draw(rt, "auth"),
-		ClientName: rapid.SampledFrom([]string{"", "c47-client", "name with spaces"}).Draw(rt, "clientName"),
+		ClientName: rapid.SampledFrom([]string{"", "c47-client", "c47-other"}).Draw(rt, "clientName"),
 		SelectDB:   rapid.IntRange(0, 3).Draw(rt, "selectDB"),
 		NoTouch:    rapid.Bool().Draw(rt, "noTouch"),
 		NoEvict:    rapid.Bool().Draw(rt, "noEvict"),
 		SetInfo:    rapid.SampledFrom([]string{"default", "default", "custom", "disabled"}).Draw(rt, "setInfo"),
 		Redirect:   rapid.IntRange(0, 3).Draw(rt, "redirect") == 0,
-	}
-	if v.ClientName == "name with spaces" {
-		v.ClientName = "c47 client" // Redis rejects spaces in names; the fake does not judge: keep one plain alternative
-		v.ClientName = "c47-other"
 	}
 	if v.Redirect {
 		v.ReplicaOnly = rapid.Bool().Draw(rt, "replicaOnly")
